@@ -53,26 +53,53 @@ type scanResult struct {
 	Reads    int
 	AfterErr int
 	Reader   *simpipe.Reader
+	// Unsticky: what a further call of Scan or Err changed about the end of
+	// the scan ("" if nothing): a scanner that has stopped stays stopped, and
+	// the error it recorded stays the error it reports.
+	Unsticky string
 }
 
 // scanAll scans a stream to its end with the real auto-detecting scanner.
 func scanAll(data []byte, spec simpipe.Spec, max int) (res scanResult) {
 	rd := simpipe.New(data, spec)
 	res.Reader = rd
+	counted := false
 	defer func() {
 		if x := recover(); x != nil {
 			res.Panic = fmt.Sprintf("%v\n%s", x, debug.Stack())
 		}
-		res.Reads, res.AfterErr = rd.Reads, rd.ReadsAfterError
+		if !counted {
+			res.Reads, res.AfterErr = rd.Reads, rd.ReadsAfterError
+		}
 	}()
 	sc := seqio.NewAutoScanner(rd)
+	stopped := true
 	for sc.Scan() {
 		res.Seqs = append(res.Seqs, sc.Value())
 		if max > 0 && len(res.Seqs) >= max {
+			stopped = false
 			break
 		}
 	}
 	res.Err = sc.Err()
+	// the reads of the scan proper are what the other oracles count
+	res.Reads, res.AfterErr, counted = rd.Reads, rd.ReadsAfterError, true
+	if stopped {
+		// callers that poll, or that call Err() in a deferred function after
+		// another Scan(), must see what the loop above saw
+		for k := 0; k < 2 && res.Unsticky == ""; k++ {
+			again := sc.Scan()
+			err2 := sc.Err()
+			switch {
+			case again:
+				res.Unsticky = fmt.Sprintf("Scan() returned false and, called again, true (Err() was %v)", res.Err)
+			case (err2 == nil) != (res.Err == nil):
+				res.Unsticky = fmt.Sprintf("after Scan() had returned false Err() was %v; after one more call of Scan() it is %v", res.Err, err2)
+			case err2 != nil && err2.Error() != res.Err.Error():
+				res.Unsticky = fmt.Sprintf("after Scan() had returned false Err() was %q; after one more call of Scan() it is %q", res.Err, err2)
+			}
+		}
+	}
 	return
 }
 
